@@ -1,5 +1,142 @@
-import Driver.Common
-/-! Driver for C02 (stub: not built yet). -/
-def main (_args : List String) : IO UInt32 := do
-  IO.eprintln "C02: driver not implemented"
-  return 2
+import Driver.CodecLines
+import CoapVerif.Model.PoolMessage
+/-! Driver for C02: `model` replays the line protocol on the decoder models; `judge` evaluates
+Spec/CodecJudge (reference parsers, canonical re-encoding, aliasing, bounded time) on
+`input => observed output`. -/
+namespace Driver.C02
+open CoapVerif.Spec.Wire CoapVerif.Spec.CodecJudge Driver.Codec
+open CoapVerif.Model CoapVerif.Model.OptionCodec CoapVerif.Model.PoolMessage
+
+def coderOf : Framing → Coder
+  | .udp => .udp
+  | .tcp => .tcp
+
+def canonTcp (f : Framing) (m : Msg) : Msg :=
+  match f with
+  | .udp => m
+  | .tcp => { m with typ := 0, mid := 0 }
+
+/-- Decode; when accepted: Size + Encode the result, decode again (same steps as the harness). -/
+def decLine (f : Framing) (cap : Nat) (bs : Bytes) : String :=
+  let c := coderOf f
+  match c.decode cap bs with
+  | .error e => s!"dec -1 {e.toString} -"
+  | .ok (m, n) =>
+    let out := s!"dec {n} ok {fmtMsg (canonTcp f m)}"
+    match c.size m with
+    | .error e => out ++ s!" | reenc -1 {e.toString} -"
+    | .ok size =>
+      match c.encode m (List.replicate size 0) with
+      | .error e => out ++ s!" | reenc -1 {e.toString} -"
+      | .ok res =>
+        if res.tooSmall then out ++ s!" | reenc {res.n} tooSmall -"
+        else
+          let wire := res.buf.take res.n
+          let out := out ++ s!" | reenc {res.n} ok {Driver.toHex wire}"
+          match c.decode cap wire with
+          | .error e => out ++ s!" | dec2 -1 {e.toString} -"
+          | .ok (m2, n2) => out ++ s!" | dec2 {n2} ok {fmtMsg (canonTcp f m2)}"
+
+def modelLine (fields : List String) : String :=
+  match fields with
+  | ["dec", c, cap, hex] =>
+    match parseCoder? c, cap.toNat?, Driver.parseHex? hex with
+    | some f, some cap, some bs => decLine f cap bs
+    | _, _, _ => "bad-op"
+  | ["hdr", hex] =>
+    match Driver.parseHex? hex with
+    | some bs =>
+      match TcpCoder.decodeHeader bs with
+      | .error e => s!"hdr -1 {e.toString}"
+      | .ok h => s!"hdr {h.length} ok {h.length} {h.messageLength} {h.code} {Driver.toHex h.token}"
+    | none => "bad-op"
+  | ["pdec", c, kind, cap, hex] =>
+    match parseCoder? c, cap.toNat?, Driver.parseHex? hex with
+    | some f, some cap, some bs =>
+      let dst : PoolMsg := if kind = "recycled" then { newMessage with optCap := cap } else newMessage
+      match unmarshalWithDecoderN (coderOf f) dst bs with
+      | .error e => s!"pdec -1 {e.toString} -"
+      | .ok (n, st) => s!"pdec {n} ok {fmtMsg (canonTcp f st.msg)} alias=ok"
+    | _, _, _ => "bad-op"
+  | _ => "bad-op"
+
+def worst (vs : List Verdict) : Verdict :=
+  match vs.find? (fun v => match v with | .violates _ => true | _ => false) with
+  | some v => v
+  | none => if vs.all (· == .skip) then .skip else .ok
+
+def judgeLine (inp out : List String) : String :=
+  match out with
+  | "panic" :: _ => "violates no-crash"
+  | "hang" :: _ => "violates bounded-time"
+  | _ =>
+  match inp, out with
+  | ["dec", c, cap, hex], _ =>
+    match parseCoder? c, cap.toNat?, Driver.parseHex? hex with
+    | some f, some cap, some bs =>
+      match splitBar out with
+      | ("dec" :: d) :: rest =>
+        match parseDecObs? d with
+        | none => "bad-op"
+        | some d =>
+          let v1 := judgeDecode f false cap bs d
+          match d.msg, rest with
+          | some m, ["reenc" :: _n :: e :: b :: [], "dec2" :: d2] =>
+            match Driver.parseHex? b, parseDecObs? d2 with
+            | some b, some d2 => (worst [v1, judgeCanonical f m e b (some d2)]).toString
+            | _, _ => "bad-op"
+          | some m, ["reenc" :: _n :: e :: _] => (worst [v1, judgeCanonical f m e [] none]).toString
+          | some _, _ => "bad-op"
+          | none, _ => v1.toString
+      | _ => "bad-op"
+    | _, _, _ => "bad-op"
+  | ["hdr", hex], "hdr" :: _n :: err :: rest =>
+    match Driver.parseHex? hex with
+    | some bs =>
+      match rest with
+      | [l, ml, code, tok] =>
+        match l.toNat?, ml.toNat?, code.toNat?, Driver.parseHex? tok with
+        | some l, some ml, some code, some tok => (judgeHeader bs err l ml code tok).toString
+        | _, _, _, _ => "bad-op"
+      | _ => (judgeHeader bs err 0 0 0 []).toString
+    | none => "bad-op"
+  | ["pdec", c, _kind, cap, hex], "pdec" :: rest =>
+    match parseCoder? c, cap.toNat?, Driver.parseHex? hex with
+    | some f, some cap, some bs =>
+      let (alias, body) := match rest.reverse with
+        | a :: r => if a.startsWith "alias=" then (a, r.reverse) else ("alias=ok", rest)
+        | [] => ("alias=ok", rest)
+      match parseDecObs? body with
+      | none => "bad-op"
+      | some d =>
+        let v1 := judgeDecode f true cap bs d
+        let v2 : Verdict := if alias = "alias=ok" then .ok else .violates "no-aliasing"
+        (worst [v1, v2]).toString
+    | _, _, _ => "bad-op"
+  | _, _ => "bad-op"
+
+def splitArrow (fields : List String) : List String × List String :=
+  let rec go : List String → List String → List String × List String
+    | [], acc => (acc.reverse, [])
+    | "=>" :: r, acc => (acc.reverse, r)
+    | x :: r, acc => go r (x :: acc)
+  go fields []
+
+def run (mode : String) : IO UInt32 := do
+  let stdin ← IO.getStdin
+  let stdout ← IO.getStdout
+  Driver.forLines stdin fun line => do
+    let f := Driver.words line
+    if mode == "model" then stdout.putStrLn (modelLine f)
+    else
+      let (i, o) := splitArrow f
+      stdout.putStrLn (judgeLine i o)
+  stdout.flush
+  return 0
+
+end Driver.C02
+
+def main (args : List String) : IO UInt32 :=
+  match args with
+  | [mode] => Driver.C02.run mode
+  | _ => do IO.eprintln "usage: drv_c02 model|judge"; return 2
